@@ -2092,13 +2092,18 @@ fn specialize(ctor: &Ctor, pattern: &[TypedPattern]) -> Vec<PatternStack> {
             | PatternEnum::StructIgnoreRemaining(struct_name_in_pattern, fields)
                 if struct_name == struct_name_in_pattern =>
             {
-                vec![
-                    fields
-                        .iter()
-                        .map(|(_, pattern)| pattern.clone())
-                        .chain(tail)
-                        .collect(),
-                ]
+                // the fields of the pattern are matched by name, fields ignored by `..` match anything:
+                let mut row = Vec::with_capacity(field_types.len());
+                for (field_name, ty) in field_types {
+                    match fields.iter().find(|(name, _)| name == field_name) {
+                        Some((_, pattern)) => row.push(pattern.clone()),
+                        None => {
+                            let wildcard = PatternEnum::Identifier("_".to_string());
+                            row.push(Pattern::typed(wildcard, ty.clone(), *meta));
+                        }
+                    }
+                }
+                vec![row.into_iter().chain(tail).collect()]
             }
             _ => vec![],
         },
